@@ -663,7 +663,16 @@ class GLRParser(Parser):
                 # Custom recovery provided during parser construction
                 if debug:
                     prints("\tDoing custom error recovery.")
+                position, token_ahead = head.position, head.token_ahead
                 successful = self.error_recovery(head, error, self.default_error_recovery)
+                if (
+                    successful
+                    and head.position != position
+                    and head.token_ahead is token_ahead
+                ):
+                    # The strategy moved the head and left the lookahead
+                    # alone. The stale lookahead must be scanned again.
+                    head.token_ahead = None
 
             if _verif.ON:
                 _verif.emit(
